@@ -335,7 +335,7 @@ theorem buildScope_reset {env : Env} {sc : Scope} {sp : PathSpec} {up : List Ide
   rw [hp, if_neg (by simp)]
   exact Exact.bind h (Exact.pure _ _ _)
 
-theorem buildScope_keep {env : Env} {sc : Scope} {sp : PathSpec} {up : List Ident} {e : PathElement}
+theorem buildScope_keep_run {env : Env} {sc : Scope} {sp : PathSpec} {up : List Ident} {e : PathElement}
     {es : List PathElement} {a : Addr} {X X1 : Node} {r : Scope}
     (hp : combinePath sp up = e :: es)
     (h : Exact (walkScope env sc (e :: es)) a X r X1) :
